@@ -11,7 +11,7 @@ if [ -n "$TESTS" ]; then
   echo "  repo tests: $r"
 fi
 for id in "$@"; do
-  out=$(/verif/check "$id" --tier quick 2>&1); code=$?
+  out=$(/verif/check "$id" --tier quick --no-evidence 2>&1); code=$?
   v=$(echo "$out" | grep -c "^VIOLATION")
   echo "$(basename "$patch" .patch) $id exit=$code violations=$v $(echo "$out" | grep -A1 "^VIOLATION" | grep -v "^VIOLATION" | head -1 | cut -c1-160)"
 done
